@@ -135,6 +135,7 @@ pub open spec fn cell_exp(g: proto::Cell, c: Cell, lib: Library) -> bool {
 /// the cells a cell instantiates: the dependency relation of layout21raw::data::DepOrder
 pub open spec fn cell_dep_seq(l: Layout) -> Seq<Ptr<Cell>> { Seq::new(l.insts@.len(), |i: int| l.insts@[i].cell) }
 pub open spec fn cell_deps(item: Ptr<Cell>) -> Set<Ptr<Cell>> { match (*item.v).layout { Some(l) => cell_dep_seq(l).to_set(), None => Set::empty() } }
+pub open spec fn derefs(s: Seq<&Ptr<Cell>>) -> Seq<Ptr<Cell>> { Seq::new(s.len(), |i: int| *s[i]) }
 pub open spec fn cells_exp(g: Seq<proto::Cell>, order: Seq<Ptr<Cell>>, lib: Library) -> bool {
     g.len() == order.len() && forall|i: int| 0 <= i < order.len() ==> cell_exp(#[trigger] g[i], *order[i].v, lib)
 }
@@ -185,18 +186,24 @@ impl<'lib> ProtoExporter<'lib> {
 //@ fn layout21raw/src/proto.rs :: impl<'lib> ProtoExporter<'lib> :: fn export_lib
 //@   ret r
 //@   let plib : proto::Library
-//@   sub R6 /for cell in DepOrder::order\(self\.lib\)\.iter\(\) \{/ => let vp_order = DepOrder::order(self.lib); proof { lemma_order_small(vp_order@, *self.lib); } for cell in vp_order.iter() {
+//@   sub R6? /for cell in DepOrder::order\(self\.lib\)\.iter\(\) \{/ => let vp_order = DepOrder::order(self.lib); proof { vp_all = vp_order@; } for cell in vp_order.iter() {
+//@   sub R5? /self\.lib\.cells\.iter\(\)/ => self.lib.cells.v.iter()
 //@   spec
 //|     requires obeys_key_model::<LayerKey>(), !(old(self).lib.units is Pico), lib_small(*old(self).lib),
 //|     ensures r is Ok ==> lib_exp(r->Ok_0, *old(self).lib),
+//@   atstart
+//|         // the sequence of cells the export loop runs over (until the loop header says otherwise: the library's own listing)
+//|         let ghost mut vp_all: Seq<Ptr<Cell>> = self.lib.cells@;
 //@   loop 1 iter it
-//|             invariant self.lib == old(self).lib, obeys_key_model::<LayerKey>(), forall|i: int| 0 <= i < vp_order@.len() ==> cell_small(*(#[trigger] vp_order@[i]).v), plib.domain@ == self.lib.name@, units_exp(plib.units, self.lib.units),
-//|                 plib.cells@.len() == it.index@, it.index@ <= vp_order@.len(),
-//|                 forall|i: int| 0 <= i < it.index@ ==> cell_exp(#[trigger] plib.cells@[i], *vp_order@[i].v, *self.lib),
+//|             invariant self.lib == old(self).lib, obeys_key_model::<LayerKey>(), lib_small(*self.lib), plib.domain@ == self.lib.name@, units_exp(plib.units, self.lib.units),
+//|                 plib.cells@.len() == it.index@, it.index@ <= it.seq().len(),
+//|                 // whatever sequence the loop runs over is a dependency ordering of the library's cell list, made of reachable cells only
+//|                 derefs(it.seq()) =~= vp_all, is_dep_ordering(vp_all, self.lib.cells@, |c: Ptr<Cell>| cell_deps(c)), only_reachable(vp_all, self.lib.cells@, cell_deps_fn()),
+//|                 forall|i: int| 0 <= i < it.index@ ==> cell_exp(#[trigger] plib.cells@[i], *vp_all[i].v, *self.lib),
 //@   before /let pcell = self\.export_cell\(&\*cell\)\?;/
-//|             proof { assert(cell_small(*vp_order@[it.index@ as int].v)); }
+//|             proof { lemma_order_small(vp_all, *self.lib); assert(cell_small(*vp_all[it.index@ as int].v)); }
 //@   before /^        Ok\(plib\)$/
-//|         proof { assert(cells_exp(plib.cells@, vp_order@, *self.lib)); }
+//|         proof { assert(cells_exp(plib.cells@, vp_all, *self.lib)); }
 //@ end
 }
 /// the abstract message: name, outline polygon, one port message per port in order, one blockage message per blockage layer (in some order)
@@ -254,7 +261,7 @@ impl<'lib> ProtoExporter<'lib> {
 //|                 proof { assert(*shape == shapes@[it2.index@ as int]); }
 //@   loopend 2
 //|                 proof { lemma_msg_step(ps0, pshapes, nums(*self.lib, *layerkey, LayerPurpose::Pin)->0, shapes@.take(it2.index@ as int), *shape); assert(shapes@.take(it2.index@ + 1) == shapes@.take(it2.index@ as int).push(*shape)); }
-//@   before /pport\.shapes\.push\(pshapes\);/
+//@   before1 /pport\.shapes\.push\(/
 //|             proof { assert(shapes@.take(shapes@.len() as int) == shapes@); keys = keys.push(*layerkey); }
 //@   before /^        Ok\(pport\)$/
 //|         proof {
